@@ -29,7 +29,7 @@ def _call_block_pred(fn, suffix):
     return pred
 
 
-@obligation("CONF.proposal_filter", ["C09"], floor=3, kind="guard (CNF) + exhaustive arms",
+@obligation("CONF.proposal_filter", ["C01", "C02", "C09"], floor=3, kind="guard (CNF) + exhaustive arms",
             why="two unapplied membership entries, or entering/leaving a joint configuration out of turn")
 def proposal_filter(cx):
     sites = [s for s in cx.prog.writes.get(PCI, []) if s.kind == "write" and "stmt" in s.data and _in_msg_arm(cx, s, {"MsgPropose"}, depth=0)]
@@ -101,7 +101,7 @@ def proposal_filter(cx):
         cx.check(okn, key + ":normal", "a refused conf change is replaced by an empty EntryNormal")
 
 
-@obligation("CONF.leader_block", ["C09"], floor=1, kind="value shape + order",
+@obligation("CONF.leader_block", ["C01", "C02", "C09"], floor=1, kind="value shape + order",
             why="a new leader must not accept a conf change while its own unapplied tail may contain one")
 def leader_block(cx):
     ws = [s for s in cx.prog.writes.get(STATE, []) if "stmt" in s.data and write_value(cx, s) == ("enum", "raft::raft::StateRole", "Leader")]
@@ -136,7 +136,7 @@ def leader_block(cx):
             cx.check(ok and before, cx.site_key(s, "write:" + PCI), "pending_conf_index := last_index() taken before the new leader appends its empty entry (found %s)" % show(v), s, value=show(v))
 
 
-@obligation("CONF.campaign_gate", ["C09"], floor=3, kind="guard + pairing",
+@obligation("CONF.campaign_gate", ["C01", "C02", "C09"], floor=3, kind="guard + pairing",
             why="a node must not start an election while a committed membership change is unapplied locally")
 def campaign_gate(cx):
     n = 0
